@@ -338,6 +338,8 @@ def save_replay(ctx, sched_file, index, n, upto=None):
     h = json.loads(lines[index])
     if upto is not None:
         h['ops'] = h['ops'][:upto]
+    if '-tiny-' in os.path.basename(sched_file):
+        h['buildTags'] = 'verif,tiny'   # executed by the 64-bit build; --replay builds the same
     p = os.path.join(d, '%s-%d-%d.json' % (ctx.prop, ctx.seed, n))
     json.dump(h, open(p, 'w'))
     return p
